@@ -90,6 +90,18 @@ func c04PrecisionDocs() *TextSet {
 
 var c04Opts = []string{"none", "SET", "MULTISET", "SETKEYS:id"}
 
+// c04ExactDocs: numbers that are exact binary fractions, so that |x-y| == eps is decided without
+// rounding for eps = 0.5 ("maximum absolute difference for numbers to be equal": inclusive).
+func c04ExactDocs() *TextSet {
+	return memoize("c04-exact", func() *TextSet {
+		var out []V
+		for _, x := range []V{0.0, 0.5, 1.0, 1.5, 2.0, 2.25, -0.5, 3.0} {
+			out = append(out, x, []interface{}{x}, map[string]interface{}{"a": x}, []interface{}{1.0, x}, map[string]interface{}{"a": []interface{}{map[string]interface{}{"b": x}}})
+		}
+		return NewTextSet(out)
+	})
+}
+
 func init() {
 	engine.Register(&engine.Check{
 		ID: "C04",
@@ -111,6 +123,8 @@ func init() {
 			pr := c04PrecisionDocs()
 			pairs(e, "c04:PRECISION:0.1", "precision", pr, pr)
 			pairs(e, "c04:PRECISION:0.001", "precision", pr, pr)
+			ex := c04ExactDocs()
+			pairs(e, "c04:PRECISION:0.5", "precision-exact-boundary", ex, ex)
 			for _, o := range c04Opts {
 				pairs(e, "c04:"+o, "U/"+o, u, u)
 			}
@@ -130,7 +144,7 @@ func runC04(c *engine.Case) engine.Result {
 	aV, bV := ref.MustParse(c.A), ref.MustParse(c.B)
 	var want bool
 	if o.Eps > 0 {
-		if ref.NearBoundary(aV, bV, o.Eps) {
+		if o.Eps != 0.5 && ref.NearBoundary(aV, bV, o.Eps) {
 			return engine.Result{Bucket: "no-verdict: on the eps boundary"}
 		}
 		want = ref.EqualEps(aV, bV, o.Eps)
